@@ -1,5 +1,7 @@
 (* C18 -- connection authentication is mutual and exact.
-   Only statements here; proofs live in Proofs/AuthProofs.v.
+   Only statements here; proofs live in Proofs/AuthProofs.v, AuthFaultProofs.v,
+   AuthKeyProofs.v (keys compared through HMAC key normalisation) and
+   AuthSessionProofs.v (several sessions, replay).
 
    The statements are about `code_listener` / `code_client`: Listener(authkey)+accept()
    and Client(authkey) assembled from the definitions that translate/kernels/auth.py
@@ -9,7 +11,8 @@
    are universally quantified oracles.  A peer is an arbitrary list of messages, or an
    arbitrary adaptive strategy. *)
 From Coq Require Import ZArith List Bool.
-From BV Require Import Lib.AuthBase Gen.K_auth Model.Auth Proofs.AuthProofs Proofs.AuthFaultProofs.
+From BV Require Import Lib.AuthBase Lib.AuthKey Gen.K_auth Model.Auth Proofs.AuthProofs
+  Proofs.AuthFaultProofs Proofs.AuthKeyProofs Proofs.AuthSessionProofs.
 Import ListNotations.
 Open Scope Z_scope.
 
@@ -87,35 +90,154 @@ Theorem C18_client_detects_second : forall mac n k0 k kc ul uc,
 Proof. exact code_mismatch_second. Qed.
 Print Assumptions C18_client_detects_second.
 
-(* ---- under "different keys are told apart by the MAC on at least one of the two
-   challenges": connection on both sides IFF same key; else both AuthenticationError *)
-Theorem C18_iff_same_key : forall mac n k0 k kc ul uc,
+(* ==== "exact" = exact up to HMAC key normalisation (audit follow-up, 2026-09-23).
+   `norm B h key` (Lib/AuthKey.v) is RFC 2104 / CPython hmac.py key preparation with
+   block size B and hash h:   zpad B (if B < |key| then h key else key),
+   zpad B x = x ++ B - |x| NUL bytes.  B = 64 and h = MD5 for the HMAC-MD5 the code
+   names; both are universally quantified here (MD5 itself is not modelled).
+   The two hypotheses about the abstract MAC are spelled out in each statement:
+     (H1) forall key m, mac key m = mac (norm B h key) m
+          -- the MAC sees its key only through the normalised key.  True of the real
+             HMAC; checked against CPython's hmac on sampled keys on every run.
+     (H2) forall a b, mac (norm B h a) c = mac (norm B h b) c -> norm B h a = norm B h b
+          for c = the listener's challenge OR c = the client's challenge (one suffices)
+          -- distinct normalised keys do not collide on the challenge used: THE
+             cryptographic assumption (idealised key-collision freeness of HMAC).
+   This replaces the former C18_iff_same_key, whose hypothesis
+   `kl <> kc -> mac kc cl <> mac kl cl \/ mac kl cc <> mac kc cc` was the contrapositive
+   of its own conclusion. ==== *)
+
+(* ---- H1 + H2: connection on both sides IFF the NORMALISED keys are equal; in every
+   other case both sides raise AuthenticationError *)
+Theorem C18_iff_same_normalised_key :
+  forall (B : nat) (h : bytes -> bytes) (mac : bytes -> bytes -> bytes),
+    (forall key m, mac key m = mac (norm B h key) m) ->                          (* H1 *)
+    forall n k0 k kc ul uc,
     let kl := k0 :: k in
     let cl := ul 20 in
     let cc := uc 20 in
     blen cl = 20 -> blen cc = 20 -> blen (mac kc cl) <= 256 -> blen (mac kl cc) <= 256 ->
-    (kl <> kc -> mac kc cl <> mac kl cl \/ mac kl cc <> mac kc cc) ->
+    (forall a b, mac (norm B h a) cl = mac (norm B h b) cl -> norm B h a = norm B h b) \/
+    (forall a b, mac (norm B h a) cc = mac (norm B h b) cc -> norm B h a = norm B h b) ->  (* H2 *)
+    let r := code_handshake mac (13 + n) (KBytes kl) (KBytes kc) ul uc in
+    ((fst (fst r) = Returned /\ fst (snd r) = Returned) <-> norm B h kl = norm B h kc) /\
+    (norm B h kl <> norm B h kc ->
+     fst (fst r) = Raised AuthenticationError /\ fst (snd r) = Raised AuthenticationError).
+Proof. exact code_iff_same_normalised_key. Qed.
+Print Assumptions C18_iff_same_normalised_key.
+
+(* ---- the LITERAL property, for keys that fit in a block and do not end with a NUL
+   byte (both of them): connection on both sides IFF same key; different keys => both
+   AuthenticationError.  (Strictly stronger than the former C18_iff_same_key: same
+   conclusion, structural hypotheses.) *)
+Theorem C18_iff_same_key :
+  forall (B : nat) (h : bytes -> bytes) (mac : bytes -> bytes -> bytes),
+    (forall key m, mac key m = mac (norm B h key) m) ->                          (* H1 *)
+    forall n k0 k kc ul uc,
+    let kl := k0 :: k in
+    let cl := ul 20 in
+    let cc := uc 20 in
+    blen cl = 20 -> blen cc = 20 -> blen (mac kc cl) <= 256 -> blen (mac kl cc) <= 256 ->
+    (length kl <= B)%nat -> (length kc <= B)%nat ->        (* not longer than the block *)
+    last kl 1 <> 0 -> last kc 1 <> 0 ->                    (* last byte is not NUL *)
+    (forall a b, mac (norm B h a) cl = mac (norm B h b) cl -> norm B h a = norm B h b) \/
+    (forall a b, mac (norm B h a) cc = mac (norm B h b) cc -> norm B h a = norm B h b) ->  (* H2 *)
     let r := code_handshake mac (13 + n) (KBytes kl) (KBytes kc) ul uc in
     ((fst (fst r) = Returned /\ fst (snd r) = Returned) <-> kl = kc) /\
     (kl <> kc ->
      fst (fst r) = Raised AuthenticationError /\ fst (snd r) = Raised AuthenticationError).
-Proof. exact code_iff_same_key. Qed.
+Proof. exact code_iff_same_key_literal. Qed.
 Print Assumptions C18_iff_same_key.
 
-(* ---- ... and WITHOUT that hypothesis the literal "iff same key" is false: a MAC that
-   zero-pads its key (as HMAC does) lets two different non-empty keys authenticate each
-   other.  C18_iff_same_key above is the strongest true statement (the `_partial`);
-   the witness on the real HMAC-MD5 (b'k' vs b'k\0') is produced by the harness as the
-   alarm C18:hmac-equivalent-keys-accepted. *)
+(* ---- H1 ALONE: two keys with the same normalisation authenticate each other, with
+   exactly the transcript of a same-key handshake.  This is finding
+   C18:hmac-equivalent-keys-accepted as a theorem about EVERY MAC that normalises its
+   key the way HMAC does. *)
+Theorem C18_equivalent_keys_accepted :
+  forall (B : nat) (h : bytes -> bytes) (mac : bytes -> bytes -> bytes),
+    (forall key m, mac key m = mac (norm B h key) m) ->                          (* H1 *)
+    forall n k0 k kc ul uc,
+    let kl := k0 :: k in
+    let cl := ul 20 in
+    let cc := uc 20 in
+    blen cl = 20 -> blen cc = 20 -> blen (mac kc cl) <= 256 -> blen (mac kl cc) <= 256 ->
+    norm B h kl = norm B h kc ->
+    code_handshake mac (13 + n) (KBytes kl) (KBytes kc) ul uc =
+    ((Returned, [K_auth.CHALLENGE ++ cl; K_auth.WELCOME; mac kl cc]),
+     (Returned, [mac kc cl; K_auth.CHALLENGE ++ cc; K_auth.WELCOME])).
+Proof. exact code_equivalent_keys_accepted. Qed.
+Print Assumptions C18_equivalent_keys_accepted.
+
+(* the two families of DISTINCT keys with equal normalisation: key / key followed by
+   NUL bytes within the block (both role assignments) ... *)
+Theorem C18_nul_padded_key_accepted :
+  forall (B : nat) (h : bytes -> bytes) (mac : bytes -> bytes -> bytes),
+    (forall key m, mac key m = mac (norm B h key) m) ->                          (* H1 *)
+    forall n k0 k j ul uc,
+    let key := k0 :: k in
+    let padded := key ++ repeat 0 j in
+    (0 < j)%nat -> (length key + j <= B)%nat ->
+    blen (ul 20) = 20 -> blen (uc 20) = 20 -> (forall a m, blen (mac a m) <= 256) ->
+    key <> padded /\
+    (let r := code_handshake mac (13 + n) (KBytes key) (KBytes padded) ul uc in
+     fst (fst r) = Returned /\ fst (snd r) = Returned) /\
+    (let r := code_handshake mac (13 + n) (KBytes padded) (KBytes key) ul uc in
+     fst (fst r) = Returned /\ fst (snd r) = Returned).
+Proof. exact code_nul_padded_key_accepted. Qed.
+Print Assumptions C18_nul_padded_key_accepted.
+
+(* ... and a key longer than the block / its hash *)
+Theorem C18_hashed_key_accepted :
+  forall (B : nat) (h : bytes -> bytes) (mac : bytes -> bytes -> bytes),
+    (forall key m, mac key m = mac (norm B h key) m) ->                          (* H1 *)
+    forall n k0 k ul uc,
+    let key := k0 :: k in
+    (B < length key)%nat -> (length (h key) <= B)%nat ->
+    blen (ul 20) = 20 -> blen (uc 20) = 20 -> (forall a m, blen (mac a m) <= 256) ->
+    key <> h key /\
+    (let r := code_handshake mac (13 + n) (KBytes key) (KBytes (h key)) ul uc in
+     fst (fst r) = Returned /\ fst (snd r) = Returned).
+Proof. exact code_hashed_key_accepted. Qed.
+Print Assumptions C18_hashed_key_accepted.
+
+(* ---- hence the unconditional "connection IFF same key" is FALSE -- not for one toy
+   MAC (the former statement was `exists mac`), but for EVERY MAC satisfying H1 with a
+   block of at least two bytes: two different non-empty keys authenticate each other.
+   The witness on the real HMAC-MD5 (b'k' vs b'k\0', long key vs md5(key)) is produced
+   by the harness as the alarm C18:hmac-equivalent-keys-accepted. *)
 Theorem C18_iff_same_key_refuted :
-  exists mac kl kc ul uc,
-    kl <> kc /\ kl <> [] /\ kc <> [] /\
-    blen (ul 20) = 20 /\ blen (uc 20) = 20 /\
-    blen (mac kc (ul 20)) <= 256 /\ blen (mac kl (uc 20)) <= 256 /\
-    fst (fst (code_handshake mac 13 (KBytes kl) (KBytes kc) ul uc)) = Returned /\
-    fst (snd (code_handshake mac 13 (KBytes kl) (KBytes kc) ul uc)) = Returned.
-Proof. exact code_iff_same_key_refuted. Qed.
+  forall (B : nat) (h : bytes -> bytes) (mac : bytes -> bytes -> bytes),
+    (forall key m, mac key m = mac (norm B h key) m) ->                          (* H1 *)
+    forall n ul uc,
+    (2 <= B)%nat ->
+    blen (ul 20) = 20 -> blen (uc 20) = 20 -> (forall a m, blen (mac a m) <= 256) ->
+    exists kl kc,
+      kl <> kc /\ kl <> [] /\ kc <> [] /\
+      fst (fst (code_handshake mac (13 + n) (KBytes kl) (KBytes kc) ul uc)) = Returned /\
+      fst (snd (code_handshake mac (13 + n) (KBytes kl) (KBytes kc) ul uc)) = Returned.
+Proof. exact code_iff_same_key_refuted_any_mac. Qed.
 Print Assumptions C18_iff_same_key_refuted.
+
+(* ---- non-vacuity: H1 and H2 (for every message) are jointly satisfiable -- toy_hmac =
+   norm 64 toy_h key ++ message, toy_h a 3-byte toy hash -- and the conclusions computed:
+   keys one bit apart refused; same key accepted; key vs NUL-padded key accepted; a
+   65-byte key vs its hash accepted; a 64-byte key vs the same key plus one NUL (65
+   bytes, hence hashed) refused *)
+Example C18_key_hypotheses_witness :
+  (forall k m, toy_hmac k m = toy_hmac (norm 64 toy_h k) m) /\
+  (forall m a b, toy_hmac (norm 64 toy_h a) m = toy_hmac (norm 64 toy_h b) m ->
+                 norm 64 toy_h a = norm 64 toy_h b) /\
+  (let r := code_handshake toy_hmac 13 (KBytes [1; 2; 3]) (KBytes [1; 2; 4]) (const20 7) (const20 9) in
+   fst (fst r) = Raised AuthenticationError /\ fst (snd r) = Raised AuthenticationError) /\
+  (let r := code_handshake toy_hmac 13 (KBytes [1; 2; 3]) (KBytes [1; 2; 3]) (const20 7) (const20 9) in
+   fst (fst r) = Returned /\ fst (snd r) = Returned) /\
+  (let r := code_handshake toy_hmac 13 (KBytes [1; 2; 3]) (KBytes [1; 2; 3; 0]) (const20 7) (const20 9) in
+   fst (fst r) = Returned /\ fst (snd r) = Returned) /\
+  (let r := code_handshake toy_hmac 13 (KBytes long_key) (KBytes (toy_h long_key)) (const20 7) (const20 9) in
+   fst (fst r) = Returned /\ fst (snd r) = Returned) /\
+  (let r := code_handshake toy_hmac 13 (KBytes (repeat 5 64)) (KBytes (repeat 5 64 ++ [0])) (const20 7) (const20 9) in
+   fst (fst r) = Raised AuthenticationError /\ fst (snd r) = Raised AuthenticationError).
+Proof. exact toy_hmac_witness. Qed.
 
 (* ---- against ANY peer: a connection is returned only if the peer's answer is
    exactly mac key challenge (exact characterisations of the accepted peers) *)
@@ -169,6 +291,133 @@ Theorem C18_replay_refused : forall mac k0 k u c_old rest sent,
     run1 (code_listener mac (KBytes (k0 :: k)) u) (mac (k0 :: k) c_old :: rest) <> (sent, Returned).
 Proof. exact listener_refuses_replay. Qed.
 Print Assumptions C18_replay_refused.
+
+(* ==== replay ACROSS SESSIONS / a fresh challenge per connection (audit follow-up,
+   2026-09-23; Proofs/AuthSessionProofs.v).  The honest endpoints take part in several
+   sessions; os.urandom is an oracle STREAM `urandom : nat -> Z -> bytes` (session index
+   -> requested length -> bytes; `urandomc` for the client): in session j the listener is
+   `code_listener mac key (urandom j)`.  In session i listener and client hold the same
+   key and an attacker records everything; in session j the recorded messages of one
+   party are played at the other.  c_i = urandom i 20 etc.  Nothing is assumed about
+   digests being different: the dependency on the challenges is the statement. ==== *)
+
+(* what is recorded: session i succeeds, with this transcript *)
+Theorem C18_replay_across_sessions_recorded :
+  forall mac (urandom urandomc : nat -> Z -> bytes) k0 k n i,
+    blen (urandom i 20) = 20 /\ blen (urandomc i 20) = 20 /\
+    blen (mac (k0 :: k) (urandom i 20)) <= 256 /\ blen (mac (k0 :: k) (urandomc i 20)) <= 256 ->
+    code_handshake mac (13 + n) (KBytes (k0 :: k)) (KBytes (k0 :: k)) (urandom i) (urandomc i) =
+    ((Returned, [K_auth.CHALLENGE ++ urandom i 20; K_auth.WELCOME; mac (k0 :: k) (urandomc i 20)]),
+     (Returned, [mac (k0 :: k) (urandom i 20); K_auth.CHALLENGE ++ urandomc i 20; K_auth.WELCOME])).
+Proof. exact session_outcome. Qed.
+Print Assumptions C18_replay_across_sessions_recorded.
+
+(* (i) everything the client sent in session i, played at the listener in session j: the
+   listener returns a connection IFF mac (k0 :: k) c_i = mac (k0 :: k) c_j; otherwise it sends
+   FAILURE and raises AuthenticationError *)
+Theorem C18_replay_across_sessions_listener :
+  forall mac (urandom urandomc : nat -> Z -> bytes) k0 k n i j,
+    blen (urandom i 20) = 20 /\ blen (urandomc i 20) = 20 /\
+    blen (mac (k0 :: k) (urandom i 20)) <= 256 /\ blen (mac (k0 :: k) (urandomc i 20)) <= 256 ->
+    let s_i := code_handshake mac (13 + n) (KBytes (k0 :: k)) (KBytes (k0 :: k)) (urandom i) (urandomc i) in
+    let recorded := snd (snd s_i) in                     (* all the client sent in session i *)
+    let s_j := run1 (code_listener mac (KBytes (k0 :: k)) (urandom j)) recorded in
+    (snd s_j = Returned <-> mac (k0 :: k) (urandom i 20) = mac (k0 :: k) (urandom j 20)) /\
+    (mac (k0 :: k) (urandom i 20) <> mac (k0 :: k) (urandom j 20) ->
+     s_j = ([K_auth.CHALLENGE ++ urandom j 20; K_auth.FAILURE], Raised AuthenticationError)).
+Proof. exact replay_at_listener_accepted_iff_digests. Qed.
+Print Assumptions C18_replay_across_sessions_listener.
+
+(* freshness is NECESSARY: if the listener's challenge repeats (c_i = c_j) the replay
+   SUCCEEDS -- the attacker, who does not know the key, is handed a connection *)
+Theorem C18_replay_across_sessions_accepted_if_challenge_repeats :
+  forall mac (urandom urandomc : nat -> Z -> bytes) k0 k n i j,
+    blen (urandom i 20) = 20 /\ blen (urandomc i 20) = 20 /\
+    blen (mac (k0 :: k) (urandom i 20)) <= 256 /\ blen (mac (k0 :: k) (urandomc i 20)) <= 256 ->
+    urandom i 20 = urandom j 20 ->
+    let s_i := code_handshake mac (13 + n) (KBytes (k0 :: k)) (KBytes (k0 :: k)) (urandom i) (urandomc i) in
+    run1 (code_listener mac (KBytes (k0 :: k)) (urandom j)) (snd (snd s_i)) =
+    ([K_auth.CHALLENGE ++ urandom j 20; K_auth.WELCOME; mac (k0 :: k) (urandomc i 20)], Returned).
+Proof. exact replay_at_listener_accepted_if_challenge_repeats. Qed.
+Print Assumptions C18_replay_across_sessions_accepted_if_challenge_repeats.
+
+(* (ii) if the MAC under this key tells the two challenges apart whenever they differ
+   (hypothesis on exactly these two messages; a universal form would be false for a
+   16-byte digest of 20-byte challenges), the replay is accepted IFF the challenge
+   repeated: urandom i 20 <> urandom j 20 is what makes the replay fail *)
+Theorem C18_replay_across_sessions_iff_challenge_repeats :
+  forall mac (urandom urandomc : nat -> Z -> bytes) k0 k n i j,
+    blen (urandom i 20) = 20 /\ blen (urandomc i 20) = 20 /\
+    blen (mac (k0 :: k) (urandom i 20)) <= 256 /\ blen (mac (k0 :: k) (urandomc i 20)) <= 256 ->
+    (mac (k0 :: k) (urandom i 20) = mac (k0 :: k) (urandom j 20) -> urandom i 20 = urandom j 20) ->
+    let s_i := code_handshake mac (13 + n) (KBytes (k0 :: k)) (KBytes (k0 :: k)) (urandom i) (urandomc i) in
+    let s_j := run1 (code_listener mac (KBytes (k0 :: k)) (urandom j)) (snd (snd s_i)) in
+    (snd s_j = Returned <-> urandom i 20 = urandom j 20) /\
+    (urandom i 20 <> urandom j 20 ->
+     s_j = ([K_auth.CHALLENGE ++ urandom j 20; K_auth.FAILURE], Raised AuthenticationError)).
+Proof. exact replay_at_listener_accepted_iff_challenge_repeats. Qed.
+Print Assumptions C18_replay_across_sessions_iff_challenge_repeats.
+
+(* an attacker that can only RE-SEND messages recorded in session i -- of either party,
+   in any order, any number of them -- is accepted by the listener in session j only if
+   the digest of the new challenge is one of the six recorded messages *)
+Theorem C18_replay_across_sessions_resend_only_attacker :
+  forall mac (urandom urandomc : nat -> Z -> bytes) k0 k n i j inc sent,
+    blen (urandom i 20) = 20 /\ blen (urandomc i 20) = 20 /\
+    blen (mac (k0 :: k) (urandom i 20)) <= 256 /\ blen (mac (k0 :: k) (urandomc i 20)) <= 256 ->
+    let s_i := code_handshake mac (13 + n) (KBytes (k0 :: k)) (KBytes (k0 :: k)) (urandom i) (urandomc i) in
+    Forall (fun m => In m (snd (fst s_i) ++ snd (snd s_i))) inc ->
+    run1 (code_listener mac (KBytes (k0 :: k)) (urandom j)) inc = (sent, Returned) ->
+    In (mac (k0 :: k) (urandom j 20))
+       [K_auth.CHALLENGE ++ urandom i 20; K_auth.WELCOME; mac (k0 :: k) (urandomc i 20);
+        mac (k0 :: k) (urandom i 20); K_auth.CHALLENGE ++ urandomc i 20; K_auth.WELCOME].
+Proof. exact replay_only_attacker_at_listener. Qed.
+Print Assumptions C18_replay_across_sessions_resend_only_attacker.
+
+(* the symmetric attack: everything the LISTENER sent in session i, played at a fresh
+   client in session j.  The client answers the old challenge again (sends mac (k0 :: k) c_i),
+   is told WELCOME, sends its own fresh challenge cc_j and gets the recorded digest of
+   cc_i: it returns IFF mac (k0 :: k) cc_i = mac (k0 :: k) cc_j, else sends FAILURE and raises; and
+   it is accepted if its challenge repeats *)
+Theorem C18_replay_across_sessions_client :
+  forall mac (urandom urandomc : nat -> Z -> bytes) k0 k n i j,
+    blen (urandom i 20) = 20 /\ blen (urandomc i 20) = 20 /\
+    blen (mac (k0 :: k) (urandom i 20)) <= 256 /\ blen (mac (k0 :: k) (urandomc i 20)) <= 256 ->
+    let s_i := code_handshake mac (13 + n) (KBytes (k0 :: k)) (KBytes (k0 :: k)) (urandom i) (urandomc i) in
+    let s_j := run1 (code_client mac (KBytes (k0 :: k)) (urandomc j)) (snd (fst s_i)) in
+    (snd s_j = Returned <-> mac (k0 :: k) (urandomc i 20) = mac (k0 :: k) (urandomc j 20)) /\
+    (mac (k0 :: k) (urandomc i 20) <> mac (k0 :: k) (urandomc j 20) ->
+     s_j = ([mac (k0 :: k) (urandom i 20); K_auth.CHALLENGE ++ urandomc j 20; K_auth.FAILURE],
+            Raised AuthenticationError)).
+Proof. exact replay_at_client_accepted_iff_digests. Qed.
+Print Assumptions C18_replay_across_sessions_client.
+
+Theorem C18_replay_across_sessions_client_iff_challenge_repeats :
+  forall mac (urandom urandomc : nat -> Z -> bytes) k0 k n i j,
+    blen (urandom i 20) = 20 /\ blen (urandomc i 20) = 20 /\
+    blen (mac (k0 :: k) (urandom i 20)) <= 256 /\ blen (mac (k0 :: k) (urandomc i 20)) <= 256 ->
+    (mac (k0 :: k) (urandomc i 20) = mac (k0 :: k) (urandomc j 20) -> urandomc i 20 = urandomc j 20) ->
+    let s_i := code_handshake mac (13 + n) (KBytes (k0 :: k)) (KBytes (k0 :: k)) (urandom i) (urandomc i) in
+    let s_j := run1 (code_client mac (KBytes (k0 :: k)) (urandomc j)) (snd (fst s_i)) in
+    (snd s_j = Returned <-> urandomc i 20 = urandomc j 20) /\
+    (urandomc i 20 <> urandomc j 20 ->
+     s_j = ([mac (k0 :: k) (urandom i 20); K_auth.CHALLENGE ++ urandomc j 20; K_auth.FAILURE],
+            Raised AuthenticationError)) /\
+    (urandomc i 20 = urandomc j 20 ->
+     s_j = ([mac (k0 :: k) (urandom i 20); K_auth.CHALLENGE ++ urandomc j 20; K_auth.WELCOME], Returned)).
+Proof. exact replay_at_client_challenge_repeats_summary. Qed.
+Print Assumptions C18_replay_across_sessions_client_iff_challenge_repeats.
+
+(* non-vacuity: msg_mac key m = key ++ m (injective in the message); the listener's
+   stream is fresh in session 1 and repeats its session-0 value in session 2 *)
+Example C18_replay_across_sessions_witness :
+  (blen (stream_l 0 20) = 20 /\ blen (stream_c 0 20) = 20 /\
+   blen (msg_mac [1; 2; 3] (stream_l 0 20)) <= 256 /\ blen (msg_mac [1; 2; 3] (stream_c 0 20)) <= 256) /\
+  replay_at_listener msg_mac stream_l stream_c 1 [2; 3] 0 0 1 =
+  ([K_auth.CHALLENGE ++ const20 8 20; K_auth.FAILURE], Raised AuthenticationError) /\
+  snd (replay_at_listener msg_mac stream_l stream_c 1 [2; 3] 0 0 2) = Returned /\
+  snd (replay_at_client msg_mac stream_l stream_c 1 [2; 3] 0 0 1) = Raised AuthenticationError.
+Proof. exact session_witness. Qed.
 
 (* the refusal itself: FAILURE is sent (never WELCOME) and AuthenticationError raised *)
 Theorem C18_wrong_digest_outcome : forall mac key u k r rest,
@@ -349,18 +598,16 @@ Example C18_fault_witness :
   ([[1; 2; 3]; K_auth.CHALLENGE ++ const20 9 20], Raised BrokenPipeError).
 Proof. exact code_toy_fault_witness. Qed.
 
-(* ---- non-vacuity: a MAC that is injective in the key satisfies the hypothesis of
-   C18_iff_same_key, and the conclusions computed on concrete keys one bit apart *)
+(* ---- computed transcripts with the key-revealing toy MAC (toy_mac key m = key): keys one
+   bit apart / the same key, complete wire contents *)
 Example C18_toy_mac_witness :
-  (forall kl kc cl cc, kl <> kc ->
-                       toy_mac kc cl <> toy_mac kl cl \/ toy_mac kl cc <> toy_mac kc cc) /\
   code_handshake toy_mac 13 (KBytes [1; 2; 3]) (KBytes [1; 2; 4]) (const20 7) (const20 9) =
   ((Raised AuthenticationError, [K_auth.CHALLENGE ++ const20 7 20; K_auth.FAILURE]),
    (Raised AuthenticationError, [[1; 2; 4]])) /\
   code_handshake toy_mac 13 (KBytes [1; 2; 3]) (KBytes [1; 2; 3]) (const20 7) (const20 9) =
   ((Returned, [K_auth.CHALLENGE ++ const20 7 20; K_auth.WELCOME; [1; 2; 3]]),
    (Returned, [[1; 2; 3]; K_auth.CHALLENGE ++ const20 9 20; K_auth.WELCOME])).
-Proof. split; [exact toy_no_collision|exact code_toy_witness]. Qed.
+Proof. exact code_toy_witness. Qed.
 
 (* ---- observation, outside the property (falsy keys): Listener(authkey=b'') performs
    NO authentication, Client(authkey=b'') does; two such endpoints do not meet *)
